@@ -45,6 +45,10 @@ class TimeoutError(Exception):
     pass
 
 
+class UserError(Exception):
+    pass
+
+
 class Failure(object):
     def __init__(self, value=None, msg='connection lost'):
         self.value = value
@@ -167,6 +171,9 @@ class Connector(object):
             raise Exception("we're not trying to connect")
         self.state = 'disconnected'
         self.reactor.aborted.append(self)
+        # Twisted: BaseClient.failIfNotConnected -> Connector.connectionFailed -> factory.clientConnectionFailed,
+        # synchronously, with error.UserError
+        self.factory.clientConnectionFailed(self, Failure(UserError(), 'User aborted connection.'))
 
     def disconnect(self):
         if self.state == 'connecting':
